@@ -361,6 +361,99 @@ Definition compress_bit (a : pib) (r : request) : N :=
   if negb (q_dam r =? MACAddressMode_NONE) && negb (q_sam r =? MACAddressMode_NONE)
      && (d_dpan d =? d_span d) then 1 else 0.
 
+(** ---- the receiving MAC over time: PIB updates interleaved with frames ---- *)
+
+(** The PIB attributes the receive filter depends on. *)
+Inductive attr := APanId | AShort | AExt | APromisc | AImplicit.
+
+(** Ways the PIB of a running MAC is written:
+    [USet]       MLME-SET, a direct [database.set] (what the connectors and the upper layers do),
+                 MACManager.set_short_address / set_extended_address;
+    [UStart]     MLME-START (writes macPanId straight into the PIB);
+    [UAssocFail] MLME-ASSOCIATE that ends in a MACAssociationFailure (no acknowledgement, no or a
+                 negative response): macPanId is first set to the coordinator's, then to 0xFFFF;
+    [UAssocOk]   MLME-ASSOCIATE answered with status 0: macPanId = coordinator's PAN, the
+                 short address is the allocated one;
+    [UReset]     MLME-RESET: every attribute back to its default. *)
+Inductive update :=
+| USet (a : attr) (v : N)
+| UStart (pan : N)
+| UAssocFail (pan : N)
+| UAssocOk (pan short : N)
+| UReset.
+
+Definition pib_default : pib :=
+  {| macPanId := 65535; macShortAddress := 65535; macExtendedAddress := 1234605616436508552;
+     macPromiscuousMode := false; macImplicitBroadcast := false |}.
+
+Definition set_attr (p : pib) (a : attr) (v : N) : pib :=
+  match a with
+  | APanId => {| macPanId := v; macShortAddress := macShortAddress p; macExtendedAddress := macExtendedAddress p;
+                 macPromiscuousMode := macPromiscuousMode p; macImplicitBroadcast := macImplicitBroadcast p |}
+  | AShort => {| macPanId := macPanId p; macShortAddress := v; macExtendedAddress := macExtendedAddress p;
+                 macPromiscuousMode := macPromiscuousMode p; macImplicitBroadcast := macImplicitBroadcast p |}
+  | AExt => {| macPanId := macPanId p; macShortAddress := macShortAddress p; macExtendedAddress := v;
+               macPromiscuousMode := macPromiscuousMode p; macImplicitBroadcast := macImplicitBroadcast p |}
+  | APromisc => {| macPanId := macPanId p; macShortAddress := macShortAddress p;
+                   macExtendedAddress := macExtendedAddress p;
+                   macPromiscuousMode := negb (v =? 0); macImplicitBroadcast := macImplicitBroadcast p |}
+  | AImplicit => {| macPanId := macPanId p; macShortAddress := macShortAddress p;
+                    macExtendedAddress := macExtendedAddress p;
+                    macPromiscuousMode := macPromiscuousMode p; macImplicitBroadcast := negb (v =? 0) |}
+  end.
+
+Definition apply_update (p : pib) (u : update) : pib :=
+  match u with
+  | USet a v => set_attr p a v
+  | UStart pan => set_attr p APanId pan
+  | UAssocFail _ => set_attr p APanId 65535
+  | UAssocOk pan short => set_attr (set_attr p APanId pan) AShort short
+  | UReset => pib_default
+  end.
+
+(** What happens to a receiving MAC: a frame arrives on its PHY, or its PIB is written. The code
+    keeps NO state between frames besides the PIB (match_filter reads it for every frame). *)
+Inductive rop := RFrame (b : bytes) | RUpd (u : update).
+
+(** one outcome per frame, each computed with the PIB current at that time *)
+Fixpoint rrun (p : pib) (ops : list rop) : list rx_out :=
+  match ops with
+  | [] => []
+  | RFrame b :: r => receive p b :: rrun p r
+  | RUpd u :: r => rrun (apply_update p u) r
+  end.
+
+(** specification side: the PIB after a prefix of the history, and the number of frames in it *)
+Definition pib_after (p : pib) (ops : list rop) : pib :=
+  fold_left (fun q o => match o with RFrame _ => q | RUpd u => apply_update q u end) ops p.
+
+Fixpoint frames_in (ops : list rop) : nat :=
+  match ops with [] => O | RFrame _ :: r => S (frames_in r) | RUpd _ :: r => frames_in r end.
+
+(** back-to-back history: the sender's data requests interleaved with updates of the receiver's PIB.
+    Per request: (frames handed to the PHY, indications on the peer); None = a frame type the
+    model does not cover. Also the receiver's PIB at the end. *)
+Inductive hop := HSend (r : request) | HUpd (u : update).
+
+Fixpoint hrun (a : pib) (seq : N) (b : pib) (ops : list hop)
+  : option (list (list bytes * list indication)) * pib :=
+  match ops with
+  | [] => (Some [], b)
+  | HUpd u :: r => hrun a seq (apply_update b u) r
+  | HSend q :: r =>
+      let '(res, seq') := data_request a seq false q in
+      let '(rest, bend) := hrun a seq' b r in
+      let here := match res with
+                  | Raise _ => Some ([], [])
+                  | Ok fr => match receive b fr with
+                             | RxIndication i => Some ([fr], [i])
+                             | RxUnmodelled => None
+                             | _ => Some ([fr], [])
+                             end
+                  end in
+      (match here, rest with Some h, Some t => Some (h :: t) | _, _ => None end, bend)
+  end.
+
 (** ---- correspondence entry points (evaluated by the harness with vm_compute) ---- *)
 
 Definition optN_list_eqb (a b : list (option N)) : bool :=
@@ -477,3 +570,28 @@ Fixpoint table_eqb (a b : list (panid_key * N)) : bool :=
 
 Definition check_table (c : list (panid_key * N) * bool) : bool :=
   table_eqb (fst c) panid_table && Bool.eqb (snd c) panid_table_bound_in_mac_module.
+
+(** history case: sender PIB, receiver's initial PIB, macDataSequenceNumber of the sender, operations;
+    observed: per data request (frames handed to the PHY, indications on the peer), and the
+    receiver's PIB at the end. *)
+Definition hist_case := (pib * pib * N * list hop * (list (list bytes * list indication) * pib))%type.
+
+Definition pib_eqb (a b : pib) : bool :=
+  (macPanId a =? macPanId b) && (macShortAddress a =? macShortAddress b)
+  && (macExtendedAddress a =? macExtendedAddress b)
+  && Bool.eqb (macPromiscuousMode a) (macPromiscuousMode b)
+  && Bool.eqb (macImplicitBroadcast a) (macImplicitBroadcast b).
+
+Fixpoint steps_eqb (a b : list (list bytes * list indication)) : bool :=
+  match a, b with
+  | [], [] => true
+  | (f1, i1) :: a', (f2, i2) :: b' => frames_eqb f1 f2 && indications_eqb i1 i2 && steps_eqb a' b'
+  | _, _ => false
+  end.
+
+Definition check_hist (c : hist_case) : bool :=
+  let '(a, b, seq, ops, (osteps, opib)) := c in
+  match hrun a seq b ops with
+  | (Some steps, bend) => steps_eqb steps osteps && pib_eqb bend opib
+  | (None, _) => false
+  end.
